@@ -82,6 +82,13 @@ CHECKS = {
         note="Naming rules themselves (case converters, regexes) are outside; runs of blank lines are abstracted by one NEWLINE token (p_newline is idempotent); 1-based columns are the convention the language server documents.",
         design="6/C20",
     ),
+    "C17": dict(
+        category="other",
+        technique="symbolic execution of _main.main over SymBool switches (exhaustive case split of the flag space) with a refusal predicate; textual differential of -F output",
+        text="main() runs for real with -O and -c as symbolic booleans (forked by the engine), fatal() stubbed, over lang x endian x filter x marker placements (message, array, nested message, imported and transitively imported file); per path z3 checks refusal-with-diagnostic-and-no-output <=> (-O with a marker) or (-O for py) or (-F without -O); with -O -F every subset of message names is compared with the unfiltered output: exactly the named messages get Encode/Decode, textually identical, every declaration still emitted.",
+        note="The flag space is finite: symbolic execution degenerates to an exhaustive case split (exhaustive: true), schemas are one bounded family; argparse and diagnostic wording are outside.",
+        design="6/C17",
+    ),
 }
 
 NOT_APPLICABLE = {
@@ -125,7 +132,7 @@ def main():
             "add_only": True,
         },
         "engines": [
-            {"name": "pysym", "path": "vlib/pysym.py", "serves_properties": ["C01", "C02", "C05", "C07", "C08", "C09", "C11", "C12", "C13", "C14", "C20"], "kind_free_text": "DART-style symbolic execution of the real Python sources with z3 proxies (BV-192 / Int)"},
+            {"name": "pysym", "path": "vlib/pysym.py", "serves_properties": ["C01", "C02", "C05", "C07", "C08", "C09", "C11", "C12", "C13", "C14", "C17", "C20"], "kind_free_text": "DART-style symbolic execution of the real Python sources with z3 proxies (BV-192 / Int)"},
         ],
         "checks": checks,
         "not_applicable": na,
